@@ -5,6 +5,7 @@ from .model import GRAPH_CLASSES, NS
 from .report import Finding, RuleResult
 from .rules_pair import Ctx
 from .terms import Terms, show, subterms
+from .rules_val import var_defs as _var_defs
 
 LIST_INVALIDATING = {'remove', 'remove_if', 'clear', 'erase', 'unique', 'pop_back', 'pop_front', 'resize', 'assign'}
 VEC_INVALIDATING = {'push_back', 'emplace_back', 'pop_back', 'resize', 'insert', 'erase', 'clear', 'emplace', 'push',
@@ -236,6 +237,53 @@ def rule_typestate(m):
                     else:
                         res.ok(dict(function=disp, reference=dd['name'], into=show(container, u), invalidated_by=nm,
                                     at=f.nloc(x['i']), verdict='no use afterwards') if len(res.samples) < 20 else None, fn=disp)
+    # ---------------- 4b. the iterator returned by a lookup is dereferenced only after comparison with end()
+    LOOKUPS = ('find', 'lower_bound', 'upper_bound')
+    for f in m.fns:
+        u = f.unit
+        tt = Terms(f)
+        disp = f.display()
+
+        def is_lookup(t):
+            return (t[0] == 'mcall' and t[1].split('::')[-1] in LOOKUPS and
+                    t[1].split('::')[0] == 'std') or (t[0] == 'call' and t[1] in ('std::find', 'std::find_if'))
+        for n in f.nodes:
+            if n['k'] != 'CXXOperatorCallExpr' or 'callee' not in n:
+                continue
+            op = u.decl(n['callee']).get('op')
+            a = n.get('args', [])
+            if op not in ('->', '*') or len(a) != 1:
+                continue
+            t = tt.t(a[0], resolve_refs=False)
+            if is_lookup(t):
+                res.sites += 1
+                res.fail(Finding('F-TS', disp, 'lookup result dereferenced without end() test', f.nloc(n['i']),
+                                 'the iterator returned by `%s` is dereferenced directly: when the key is absent it is end(), '
+                                 'whose dereference is undefined' % f.expr_text(a[0])[:60]))
+                continue
+            if t[0] == 'var':
+                defs = [d for d in _var_defs(f, t[1]) if d[1] >= 0]
+                lk = [d for d in defs if is_lookup(tt.t(d[1]))]
+                if not lk:
+                    continue
+                res.sites += 1
+                pos = f.cfg_pos(n['i'])
+                ok = False
+                from .rules_wl import implied
+                for (bb, ix) in f.dominating_edges(pos[0]) if pos else []:
+                    atom = f.branch_atom(bb)
+                    for (at, pol) in implied(tt.t(atom), ix == 0) if atom is not None else []:
+                        if at[0] == 'bin' and at[1] in ('!=', '==') and t in (at[2], at[3]):
+                            other = at[3] if at[2] == t else at[2]
+                            if other[0] == 'mcall' and other[1].endswith(('::end', '::cend')) and ((at[1] == '!=') == pol):
+                                ok = True
+                if ok:
+                    res.ok(dict(function=disp, iterator=u.decl(t[1])['name'], at=f.nloc(n['i']), guard='!= end()')
+                           if len(res.samples) < 30 else None, fn=disp)
+                else:
+                    res.fail(Finding('F-TS', disp, 'iterator %s dereferenced without end() test' % u.decl(t[1])['name'], f.nloc(n['i']),
+                                     'iterator `%s` obtained from a lookup is dereferenced on a path where it has not been '
+                                     'compared with end()' % u.decl(t[1])['name']))
     # ---------------- 5. edge iterator equality compares the vertex first
     for cls in ('LabeledDirectedGraph', 'LabeledUndirectedGraph'):
         for f in m.by_tname.get(NS + cls + '::Edges::constEdgeIterator::operator==', []):
